@@ -11,7 +11,7 @@
 
 Mutants never touch /repo; nothing is kept under /tmp afterwards.
 """
-import json, os, subprocess, sys, tempfile, shutil, concurrent.futures, re
+import re, json, os, subprocess, sys, tempfile, shutil, concurrent.futures, re
 
 VERIF = os.path.dirname(os.path.dirname(os.path.abspath(__file__)))
 REPO = os.environ.get("SETEC_REPO", "/repo")
@@ -168,11 +168,17 @@ def cmd_benign(args):
             r = sh(["go", "test", "-count=1", "-timeout", "120s", "./..."], cwd=d, check=False)
             if r.returncode != 0:
                 print("SKIPPED %s: fails the pinned suite (not benign)" % f); continue
-            def one(prop):
-                code, rules, und, out = vet(d, prop)
-                return prop, code, rules, und
-            with concurrent.futures.ThreadPoolExecutor(max_workers=6) as ex:
-                res = list(ex.map(one, props))
+            r = sh([os.path.join(VERIF, "bin/setecvet"), "-prop", "all", "-repo", d, "-verif", d + "/.verif-out"], check=False)
+            res, chunk = [], []
+            for line in r.stdout.splitlines():
+                m = re.match(r"RESULT property=(\S+) exit=(\d+)", line)
+                if m:
+                    txt = "\n".join(chunk); chunk = []
+                    res.append((m.group(1), int(m.group(2)), sorted(set(re.findall(r"violated (R-[A-Z0-9-]+)", txt))), sorted(set(re.findall(r"UNDECIDED property=\S+ rule=(\S+)", txt)))))
+                else:
+                    chunk.append(line)
+            if len(res) != len(props):
+                res = [("all", 2, [], ["checker did not finish: " + r.stdout[-300:]])]
             alarms = [(p, c, rl, u) for (p, c, rl, u) in res if c != 0]
             if alarms:
                 bad += 1
